@@ -199,6 +199,20 @@ PROPS = {
         "stub": "the application (seeded change sequences); no scheduler or clock dependence",
         "assumptions": ["remote merges into dupsort DBIs are covered only through the shared merge path (C02/C18), not in this profile"],
     },
+    "C17": {
+        "level": "exploration",
+        "profiles": [{"name": "fleet-bucket", "weight": 2, "race": True, "chunk": 40}, {"name": "fleet-converge", "weight": 1, "race": True, "chunk": 40},
+                     {"name": "conc-sim", "weight": 1, "chunk": 1}],
+        "quick_s": 60,
+        "rule": "race part: the fleet-bucket (cleaners on, crashes, faults) and fleet-converge profiles run in the -race build; the scheduler hides its own hand-off from the detector "
+                "(runtime.RaceDisable around park/release), so each run is a happens-before race check of exactly the interleaving it executed; only reports in which at least one of the two "
+                "conflicting accesses is made by repository code count; deadlock part (conc-sim): seeded API-level schedules over utils/topics (publish, subscribe, next, close incl. close "
+                "while a publish to that subscriber is in flight, failing Handle callback), utils/climit (release from any goroutine, repeatedly) and snapshot/storage (GetGlobal before, "
+                "after and concurrent with SetGlobal) with real goroutines outside the bubble; after every schedule whose subscriptions were all drained or closed and tokens released, no "
+                "actor may remain blocked (goroutine stacks are inspected) or have panicked; non-trivial = the run executed at least two concurrent actors; distinct = distinct SHA-256 "
+                "of the event log",
+        "assumptions": FLEET_ASSUME + ["the race detector only sees the interleavings executed; interleavings finer than the yield points are covered only as far as the detector's happens-before analysis generalises them"],
+    },
 }
 
 ALL_PROFILES = sorted({p["name"] for c in PROPS.values() for p in c["profiles"]})
@@ -281,4 +295,10 @@ MANIFEST_TEXT = {
                     "layout decides mappability: mappable data must survive the cycle pair for pair with decodable, distinct, legal shadow keys and a stated transform; unmappable data must be refused "
                     "with the LMDB byte-identical.",
             "note": "No scheduler or clock dependence; seeded sequences, reference model, shrinking, replay.", "technique": "seeded operation sequences against an independent reference encoder (simulation without scheduler)"},
+    "C17": {"text": "Two parts. Races: fleet profiles run in the -race build with the scheduler's own hand-off hidden from the detector, so every run is a happens-before race check of the "
+                    "interleaving it executed (reports count only if repository code makes one of the conflicting accesses). Deadlocks/wedges: seeded API-level schedules over topics, "
+                    "climit and the global storage with real goroutines, quiescence detected from goroutine dumps; a goroutine still blocked after everything was closed, cancelled "
+                    "and released is reported with the states of the goroutines involved. Cancellation: every fleet run ends by cancelling every instance at an arbitrary yield.",
+            "note": SIM_NOTE + " The race part covers executed interleavings only; conc-sim uses wall-clock polling of goroutine states outside the fake clock.",
+            "technique": "deterministic simulation in the -race build (scheduler hand-off hidden from the detector) + API-level schedule simulation with goroutine-dump quiescence"},
 }
